@@ -82,3 +82,73 @@ Theorem C01_swap_factors : forall (m : nat -> Z) a b t s,
   sgn_names m b a t = Some (par (Nat.odd (length a * length b - length (common a b))) * s).
 Proof. exact swap_sym. Qed.
 Print Assumptions C01_swap_factors.
+
+(* ------------------------------------------------------------------------------------------------
+   The same relations for the bit-keyed TABLE signs[I, J] of every well-formed algebra (any dimension,
+   any ordering of +1/-1/0 signature entries, any start index, default or admissible custom basis);
+   wf_alg is a boolean evaluated for every algebra the correspondence explores.  Theory/SignBits.v. *)
+From KV Require Import Theory.WF Theory.SignBits.
+
+(* the table never falls into the error default, and is the name-level sign of the table's spellings *)
+Theorem C01_table_is_name_sign : forall A, wf_alg A = true -> forall I J,
+  0 <= I < alg_len A -> 0 <= J < alg_len A ->
+  exists nI nJ nIJ s, bin2canon A I = Some nI /\ bin2canon A J = Some nJ /\
+    bin2canon A (Z.lxor I J) = Some nIJ /\ sgn_names (metric A) nI nJ nIJ = Some s /\
+    compute_sign A I J = Ok s /\ sgn A I J = s.
+Proof. exact compute_sign_closed. Qed.
+Print Assumptions C01_table_is_name_sign.
+
+(* each basis vector squares to its signature entry *)
+Theorem C01_table_square : forall A, wf_alg A = true -> forall j, 0 <= j < Z.of_nat (a_d A) ->
+  exists g, bin2canon A (2 ^ j) = Some [g] /\ In g (alg_vecs A) /\ gpos A g = j /\
+    sgn A (2 ^ j) (2 ^ j) = metric A g /\ Z.lxor (2 ^ j) (2 ^ j) = 0 /\
+    metric A g = nth (Z.to_nat (Z.of_nat g - a_start A)) (a_sig A) 0.
+Proof. exact sgn_square. Qed.
+Print Assumptions C01_table_square.
+
+Theorem C01_table_anticommute : forall A, wf_alg A = true -> forall j k,
+  0 <= j < Z.of_nat (a_d A) -> 0 <= k < Z.of_nat (a_d A) -> j <> k ->
+  sgn A (2 ^ j) (2 ^ k) = - sgn A (2 ^ k) (2 ^ j) /\ (sgn A (2 ^ j) (2 ^ k) = 1 \/ sgn A (2 ^ j) (2 ^ k) = -1).
+Proof. exact sgn_anticomm. Qed.
+Print Assumptions C01_table_anticommute.
+
+Theorem C01_table_assoc : forall A, wf_alg A = true -> forall I J K,
+  0 <= I < alg_len A -> 0 <= J < alg_len A -> 0 <= K < alg_len A ->
+  sgn A I J * sgn A (Z.lxor I J) K = sgn A J K * sgn A I (Z.lxor J K).
+Proof. exact sgn_assoc. Qed.
+Print Assumptions C01_table_assoc.
+
+(* a blade named e_ij..k is +1 x the ordered product of its generators, computed through the table *)
+Theorem C01_table_named_blade : forall A, wf_alg A = true -> forall B n, bin2canon A B = Some n ->
+  fold_left (fun '(s, k) g => (s * sgn A k (genbit A g), Z.lxor k (genbit A g))) n (1, 0) = (1, B).
+Proof. exact sgn_ordered_product. Qed.
+Print Assumptions C01_table_named_blade.
+
+Theorem C01_table_values : forall A, wf_alg A = true -> forall I J,
+  0 <= I < alg_len A -> 0 <= J < alg_len A -> sgn A I J = 1 \/ sgn A I J = -1 \/ sgn A I J = 0.
+Proof. exact sgn_values. Qed.
+Print Assumptions C01_table_values.
+
+Theorem C01_table_zero_iff : forall A, wf_alg A = true -> forall I J,
+  0 <= I < alg_len A -> 0 <= J < alg_len A ->
+  (sgn A I J = 0 <-> exists g, In g (alg_vecs A) /\ Z.testbit (Z.land I J) (gpos A g) = true /\ metric A g = 0).
+Proof. exact sgn_zero_iff. Qed.
+Print Assumptions C01_table_zero_iff.
+
+(* the eager table (iterating canon2bin.items()) and the lazy table (looking names up through
+   bin2canon) evaluate _compute_sign on the same spellings; every key 0 .. 2^d-1 has exactly one name *)
+Theorem C01_lazy_eq_eager : forall A, wf_alg A = true -> forall n b, In (n, b) (a_c2b A) ->
+  0 <= b < alg_len A /\ bin2canon A b = Some n /\ canon2bin A n = Some b /\ NoDup n.
+Proof. exact c2b_entry_spec. Qed.
+Print Assumptions C01_lazy_eq_eager.
+
+Theorem C01_table_complete : forall A, wf_alg A = true -> forall I J r,
+  In (I, J, r) (signs_table A) <-> 0 <= I < alg_len A /\ 0 <= J < alg_len A /\ r = Ok (sgn A I J).
+Proof. exact signs_table_spec. Qed.
+Print Assumptions C01_table_complete.
+
+(* non-vacuity: the 3DPGA basis of Algebra.fromname is well-formed *)
+Example C01_wf_3dpga :
+  match mk_custom (sig_of_pqr 3 0 1) [[];[1];[2];[3];[0];[0;1];[0;2];[0;3];[1;2];[3;1];[2;3];[0;3;2];[0;1;3];[0;2;1];[1;2;3];[0;1;2;3]]%nat false
+  with Ok A => wf_alg A | Err _ => false end = true.
+Proof. vm_compute. reflexivity. Qed.
